@@ -343,7 +343,11 @@ func VerifC16_Probe() {
 			store1++
 		}
 	}
-	verif.Assert("store_op_bound", store1 < vMaxStoreOps)
+	if verif.Symbolic() {
+		// the bound used for k covers every operation of a Store as the engine runs it (a native run issues a
+		// different number of operations: read loops, retries and heartbeats follow allocator and real time)
+		verif.Assert("store_op_bound", store1 < vMaxStoreOps)
+	}
 	verif.Advance(10 * time.Millisecond)
 	verif.Assert("fetch1", a.cache.Fetch(ctx, key, "/dest") == nil)
 	verif.Assert("fetched_v1", vWhichVersion(inner, "/dest", 2) == 1)
